@@ -233,6 +233,27 @@ static std::string run_case(const std::vector<std::string>& a)
                 {
                     IT(r.insert(P(1), X(2)));
                 }
+                // "...s": the value argument is an lvalue referring to an element of the view itself
+                else if(op == "pbs")
+                {
+                    r.push_back(r[static_cast<size_type>(hu::to_u64(f[1]))]);
+                }
+                else if(op == "i1s")
+                {
+                    IT(r.insert(P(1), r[static_cast<size_type>(hu::to_u64(f[2]))]));
+                }
+                else if(op == "ins")
+                {
+                    IT(r.insert(P(1), C(2), r[static_cast<size_type>(hu::to_u64(f[3]))]));
+                }
+                else if(op == "ans")
+                {
+                    r.assign(C(1), r[static_cast<size_type>(hu::to_u64(f[2]))]);
+                }
+                else if(op == "rvs")
+                {
+                    r.resize(C(1), r[static_cast<size_type>(hu::to_u64(f[2]))]);
+                }
                 else if(op == "in")
                 {
                     IT(r.insert(P(1), C(2), X(3)));
@@ -310,6 +331,11 @@ static std::string run_case(const std::vector<std::string>& a)
             else if(op == "e1") VIT(vec.erase(VP(1)));
             else if(op == "er") VIT(vec.erase(VP(1), VP(2)));
             else if(op == "i1") VIT(vec.insert(VP(1), X(2)));
+            else if(op == "pbs") vec.push_back(vec[hu::to_u64(f[1])]);
+            else if(op == "i1s") VIT(vec.insert(VP(1), vec[hu::to_u64(f[2])]));
+            else if(op == "ins") VIT(vec.insert(VP(1), static_cast<std::size_t>(C(2)), vec[hu::to_u64(f[3])]));
+            else if(op == "ans") vec.assign(static_cast<std::size_t>(C(1)), vec[hu::to_u64(f[2])]);
+            else if(op == "rvs") vec.resize(static_cast<std::size_t>(C(1)), vec[hu::to_u64(f[2])]);
             else if(op == "in") VIT(vec.insert(VP(1), static_cast<std::size_t>(C(2)), X(3)));
             else if(op == "if" || op == "ii" || op == "il")
             {
